@@ -1387,9 +1387,9 @@ func ruleTabDefaults(c *Ctx) {
 		if len(rets) == 1 {
 			af := c.affine(fn, rets[0].Results[0])
 			want := map[string]int64{
-				"note.Octave.Semitone(s.Octave+1)": 1,
-				"note.Name.Semitone(s.Name)":       1,
-				"note.Accidental.Semitone(s.Accidental)": 1,
+				"note.Octave.Semitone(p0.Octave+1)": 1,
+				"note.Name.Semitone(p0.Name)":       1,
+				"note.Accidental.Semitone(p0.Accidental)": 1,
 			}
 			c.check(af.equal(want, 0), "play.SPN.MIDINoteNumber", c.pos(fn.Pos()), fname(fn), "MIDI number = (octave+1) octaves + letter + accidental", "MIDI number is computed as "+af.String()+", want Octave.Semitone(s.Octave+1) + Name.Semitone(s.Name) + Accidental.Semitone(s.Accidental) (C4 = 60)")
 		} else {
@@ -1405,7 +1405,7 @@ func ruleTabDefaults(c *Ctx) {
 		good := false
 		if len(rets) == 1 {
 			af := c.affine(fn, rets[0].Results[0])
-			good = af.equal(map[string]int64{"o": 12}, 0)
+			good = af.equal(map[string]int64{"p0": 12}, 0)
 			c.check(good, "note.Octave.Semitone", c.pos(fn.Pos()), fname(fn), "octave n = 12n semitones", "Octave.Semitone computes "+af.String()+", want 12*o")
 		}
 	} else {
